@@ -111,7 +111,8 @@ class ValueWorld:
     def build(self, methods):
         from ovld import Ovld, call_next
 
-        ns = {"LOG": self.log, "call_next": call_next, "__name__": "vfworld"}
+        self.budget = [0]
+        ns = {"LOG": self.log, "call_next": call_next, "__name__": "vfworld", "OBJ": self.objs, "BUDGET": self.budget}
         src = []
         for m in methods:
             params = []
@@ -130,7 +131,17 @@ class ValueWorld:
             kwpass = ", ".join(f"{kn}={kn}" for kn in m.get("kwn", []))
             body = f"    LOG.append(({m['id']!r}, [{names}], {{{kwd}}}))\n"
             allargs = ", ".join(x for x in (names, kwpass) if x)
-            body += f"    return call_next({allargs})\n" if m.get("body") == "next" else f"    return {m['id']!r}\n"
+            b = m.get("body")
+            if b == "next":
+                body += f"    return call_next({allargs})\n"
+            elif isinstance(b, dict) and b.get("k") == "next_with":
+                # call_next with other values (positional), a bounded number of times per outer call
+                other = ", ".join(f"OBJ[{v!r}]" for v in b["vals"])
+                body += f"    if BUDGET[0] <= 0:\n        return {m['id']!r}\n    BUDGET[0] -= 1\n"
+                body += f"    LOG.append(('>next_with', {b['vals']!r}, {{}}))\n"
+                body += f"    return call_next({other})\n"
+            else:
+                body += f"    return {m['id']!r}\n"
             src.append(f"def {m['id']}({', '.join(params)}):\n{body}")
         code = "\n".join(src)
         fname = f"<vf:dep{id(self)}-{len(linecache.cache)}>"
